@@ -9,7 +9,7 @@ use serde_json::{json, Value};
 use std::io::{Cursor, Write};
 use vph::refdec;
 
-pub const RULE: &str = "(1) full product grid depth {0,1..32,33,u32::MAX} × channels {0,1..8,9,255} × rate {0,1,8000,44100,65535,655350,2^20-1,2^20,u32::MAX} × total {none,0,1,ch-1,ch,ch·w,2^36-1,2^36,u64::MAX…} for the byte, sample and channel writer constructors; (2) every Options setter over boundary values; (3) FlacStreamWriter::write parameter grid; (4) every documented value alone and every pair of documented values across axes (depth 1..32, channels 1..8, rates, LPC order none/1..32, partition order 0..15, block sizes) encodes a short signal that the independent decoder decodes back; (5) declared-length contract: for D ∈ {1,16,17,40} PCM frames, supply ∈ {D−1, D, D+1, 2D}, every ≤2-cut write history (thorough: 4 formats, D ∈ {1,2,15,16,17,32,33,40}, ≤3 cuts for supplies ≤ 34), three writers, plus undeclared; the exact and undeclared fills again with the stream starting at offset 7 / 300 / 5000 of its sink (3 formats); both build profiles; (6) FlacChannelWriter::write with malformed channel sets (0..9 channels given to 1/2/3/8-channel writers, unequal / empty channel lengths) at each position of a 3-call history: an error or success, never a panic; (7) the new_cdda constructors of the three writers produce the same file / the same error class as new(44100 Hz, 16 bit, 2 channels) for undeclared, exact, short and long declared totals";
+pub const RULE: &str = "(1) full product grid depth {0,1..32,33,u32::MAX} × channels {0,1..8,9,255} × rate {0,1,8000,44100,65535,655350,2^20-1,2^20,u32::MAX} × total {none,0,1,ch-1,ch,ch·w,2^36-1,2^36,u64::MAX…} for the byte, sample and channel writer constructors; (2) every Options setter over boundary values; (3) FlacStreamWriter::write parameter grid; (4) every documented value alone and every pair of documented values across axes (depth 1..32, channels 1..8, rates, LPC order none/1..32, partition order 0..15, block sizes) encodes a short signal that the independent decoder decodes back; (5) declared-length contract: for D ∈ {1,16,17,40} PCM frames, supply ∈ {D−1, D, D+1, 2D}, every ≤2-cut write history (thorough: 4 formats, D ∈ {1,2,15,16,17,32,33,40}, ≤3 cuts for supplies ≤ 34), three writers, plus undeclared; the exact and undeclared fills again with the stream starting at offset 7 / 300 / 5000 of its sink (3 formats); both build profiles; (6) FlacChannelWriter::write with malformed channel sets (0..9 channels given to 1/2/3/8-channel writers, unequal / empty channel lengths) at each position of a 3-call history: an error or success, never a panic; (7) the new_cdda constructors of the three writers produce the same file / the same error class as new(44100 Hz, 16 bit, 2 channels) for undeclared, exact, short and long declared totals; (8) declared totals at the placeholder-point limit of a SEEKTABLE block (932067 points × block × interval: −1, exact, +1 sample, +1 frame, ×2) for 3 writers: the constructor returns";
 pub const ASSUMPTIONS: &[&str] = &["'works' is judged on one fixed signal per parameter vector (signal variety: C01)", "triples of documented values are covered only through C01's option lattice"];
 pub fn bounds(quick: bool) -> Value {
     json!({"grid": "full product", "pairs": if quick { "all cross-axis pairs, block sizes {16,17,192,4096}" } else { "all cross-axis pairs, block sizes {16,17,192,4096,65535}" }, "history_cuts": 2})
@@ -575,8 +575,41 @@ fn cdda_equiv(total: Option<u64>) -> Result<Result<(), String>, String> {
             })
 }
 
+
+/// Declared totals around the point where a per-frame seek-table policy would need more placeholder points than a SEEKTABLE
+/// block can hold (932067): exactly fitting, one frame more, one sample more, twice as many. The constructor must return.
+fn placeholder_limit(ctx: &Ctx, acc: &mut Acc) {
+    for (block, every) in [(16u16, 1usize), (16, 2), (32, 1)] {
+        let fit = block as u64 * every as u64 * 932_067;
+        for total in [fit - 1, fit, fit + 1, fit + block as u64 * every as u64, 2 * fit] {
+            for w in [WriterKind::Sample, WriterKind::ByteLE, WriterKind::Channel] {
+                if !ctx.mine() {
+                    continue;
+                }
+                acc.states += 1;
+                acc.executions += 1;
+                acc.transitions += 1;
+                let r = guarded(|| {
+                    let mut out = Cursor::new(Vec::new());
+                    let o = Options::default().block_size(block).unwrap().seektable_frames(every);
+                    match w {
+                        WriterKind::Sample => FlacSampleWriter::new(&mut out, o, 44100, 16, 1, Some(total)).map(|_| ()).is_ok(),
+                        WriterKind::Channel => FlacChannelWriter::new(&mut out, o, 44100, 16, 1, Some(total)).map(|w| std::mem::forget(w)).is_ok(),
+                        _ => FlacByteWriter::endian(&mut out, LittleEndian, o, 44100, 16, 1, Some(total * 2)).map(|w| std::mem::forget(w)).is_ok(),
+                    }
+                });
+                match r {
+                    Ok(ok) => acc.outcome(format!("placeholder-limit:{}", if ok { "writer" } else { "refused" })),
+                    Err(p) => acc.violation(format!("C15|placeholder-limit|panic@{}", crate::core::panic_loc(&p)), format!("{w:?}::new with block {block}, seektable_frames({every}) and a declared total of {total} PCM frames panics: {p}"), json!({"kind":"placeholder-limit","writer":format!("{w:?}"),"block":block,"every":every,"total":total})),
+                }
+            }
+        }
+    }
+}
+
 pub fn run(ctx: &Ctx, acc: &mut Acc) {
     channel_calls(ctx, acc);
+    placeholder_limit(ctx, acc);
     let t = std::time::Instant::now();
     grid(ctx, acc);
     acc.dim("cpu_ms_grid", t.elapsed().as_millis() as u64);
@@ -609,6 +642,19 @@ pub fn replay(v: &Value) -> Option<(bool, String)> {
                 _ => true,
             };
             Some((bad, format!("{:?}", r.map(|x| x.map(|b| b.len())))))
+        }
+        "placeholder-limit" => {
+            let (block, every, total) = (v["block"].as_u64()? as u16, v["every"].as_u64()? as usize, v["total"].as_u64()?);
+            let r = guarded(|| {
+                let mut out = Cursor::new(Vec::new());
+                let o = Options::default().block_size(block).unwrap().seektable_frames(every);
+                match w {
+                    WriterKind::Sample => FlacSampleWriter::new(&mut out, o, 44100, 16, 1, Some(total)).map(|_| ()).is_ok(),
+                    WriterKind::Channel => FlacChannelWriter::new(&mut out, o, 44100, 16, 1, Some(total)).map(|w| std::mem::forget(w)).is_ok(),
+                    _ => FlacByteWriter::endian(&mut out, LittleEndian, o, 44100, 16, 1, Some(total * 2)).map(|w| std::mem::forget(w)).is_ok(),
+                }
+            });
+            Some((r.is_err(), format!("{r:?}")))
         }
         "channel-call" => {
             let lens: Vec<usize> = v["lens"].as_array()?.iter().map(|x| x.as_u64().unwrap_or(0) as usize).collect();
